@@ -66,7 +66,7 @@ pub fn save_to_xlsx(model: &Model, file_name: &str) -> Result<(), XlsxError> {
     if file_path.exists() {
         return Err(XlsxError::IO(format!("file {file_name} already exists")));
     }
-    let file = fs::File::create(file_path).unwrap();
+    let file = fs::File::create(file_path)?;
     let writer = BufWriter::new(file);
     save_xlsx_to_writer(model, writer)?;
 
